@@ -138,20 +138,36 @@ def verify_function(src, reg, qual, timeout_ms=10000, select=None):
         if v.ty and v.ty.startswith("ref:"):
             st.terms.append(("ref", o.r(v)))
         st.locals[p] = names[p] = v
+    if cls is not None and not is_cm and kind in ("method", "property", "setter"):
+        # this body runs for receivers whose class resolves the method to this definition
+        mname = fn.name if not (fn.name.startswith("__") and not fn.name.endswith("__")) else "_%s%s" % (cls.lstrip("_"), fn.name)
+        users = []
+        for k in src.subclasses(cls):
+            if k in src.classes:
+                f = src.find_method(k, mname) if kind != "setter" else src.find_setter(k, mname)
+                if f and f[0] == cls:
+                    users.append(k)
+            elif k.startswith("User"):
+                users.append(k)
+        selfr = o.r(names[params[0]])
+        st.assume(z3.Or([w.cls_of(selfr) == w.CLS[k] for k in users]))
     init = st.clone()
     cx = Ctx(mod, cls, fn, c)
+    cx.defs = c.defs
     cx.fn_old, cx.fn_names = init, names
+    SCX = Ctx(mod, cls)
+    SCX.defs = c.defs
     try:
         spa = Spec(init, names, mode="assume")
         for lbl, rq in list(c.requires.items()) + list(c.assumes.items()):
-            st.assume(ex.spec_truth(st, rq, Ctx(mod, cls).with_spec(spa)))
+            st.assume(ex.spec_truth(st, rq, SCX.with_spec(spa)))
         cinv = reg.class_invs.get(cls, {}) if (cls and c.cinv is not False) else {}
         cinv_all = cinv
         if select:
             cinv = {l: v for l, v in cinv.items() if select(l)}
         if fn.name != "__init__":
             for lbl, iv in cinv_all.items():
-                st.assume(ex.spec_truth(st, iv, Ctx(mod, cls).with_spec(spa)))
+                st.assume(ex.spec_truth(st, iv, SCX.with_spec(spa)))
         if not o.feasible(st, timeout=5000):
             res["status"] = "vacuous-requires"
             return res
@@ -171,12 +187,12 @@ def verify_function(src, reg, qual, timeout_ms=10000, select=None):
                     if select and not select(lbl):
                         continue
                     sp = Spec(init, nm, names)
-                    add("post", lbl, stf, ex.spec_truth(stf, en, Ctx(mod, cls).with_spec(sp)), sp)
+                    add("post", lbl, stf, ex.spec_truth(stf, en, SCX.with_spec(sp)), sp)
                 if c.returns and c.returns not in ("any", "V"):
                     add("post", "returns-type", stf, o.is_type(resv.e, c.returns), Spec(init, nm, names))
                 for lbl, iv in cinv.items():
                     sp = Spec(init, nm, names)
-                    add("cinv", lbl, stf, ex.spec_truth(stf, iv, Ctx(mod, cls).with_spec(sp)), sp)
+                    add("cinv", lbl, stf, ex.spec_truth(stf, iv, SCX.with_spec(sp)), sp)
             elif isinstance(out, Raise):
                 nraise += 1
                 if c.noraise:
@@ -185,10 +201,10 @@ def verify_function(src, reg, qual, timeout_ms=10000, select=None):
                     if select and not select(lbl):
                         continue
                     sp = Spec(init, names, names, exc=out)
-                    add("raise", lbl, stf, ex.spec_truth(stf, rs, Ctx(mod, cls).with_spec(sp)), sp)
+                    add("raise", lbl, stf, ex.spec_truth(stf, rs, SCX.with_spec(sp)), sp)
                 for lbl, iv in cinv.items():
                     sp = Spec(init, names, names, exc=out)
-                    add("cinv@raise", lbl, stf, ex.spec_truth(stf, iv, Ctx(mod, cls).with_spec(sp)), sp)
+                    add("cinv@raise", lbl, stf, ex.spec_truth(stf, iv, SCX.with_spec(sp)), sp)
             else:
                 raise Unsupported("loop control outside loop")
         obls.extend(ex.side)
